@@ -290,7 +290,15 @@ func (e *Env) CheckSettled(class string, info ...string) {
 		}
 		e.Fail(class, "task parked forever at quiescence: %s %s", p, strings.Join(info, " "))
 	}
-	_ = native
+	// a task blocked natively (on a channel teleport owns: a graceful close waiting for its counter, a
+	// completion channel nobody drains) when nothing else can run any more will never be woken either
+	for _, n := range native {
+		if n == "" {
+			n = "(goroutine started by teleport)"
+		}
+		e.Probe("native-blocked-at-quiescence")
+		e.Fail(class, "task blocked forever on a channel at quiescence: %s %s", n, strings.Join(info, " "))
+	}
 }
 
 // Cnt is a counter shared by harness tasks that rely on the scheduler token instead of locks; its methods are
